@@ -20,6 +20,25 @@ except Exception:  # pragma: no cover - concrete replays
 
 
 UF_NONLINEAR = False  # harness option: products/quotients of two symbolic terms become uninterpreted functions
+PLACEHOLDERS = None  # dict while a string-built document is being produced: numerals become tokens __S<n>__
+
+
+def _placeholder(x):
+    k = len(PLACEHOLDERS)
+    PLACEHOLDERS[f"__S{k}__"] = SymReal(x.e)
+    return f"__S{k}__"
+
+
+def substitute_placeholders(tree, table):
+    if isinstance(tree, dict):
+        return {k: substitute_placeholders(v, table) for k, v in tree.items()}
+    if isinstance(tree, list):
+        return [substitute_placeholders(v, table) for v in tree]
+    if isinstance(tree, str) and tree in table:
+        return table[tree]
+    return tree
+
+
 ALLOW_STR = False  # harnesses whose code under test only formats numbers in messages may set this
 
 
@@ -444,14 +463,20 @@ class SymReal:
         raise Inconclusive("round() of a symbolic value")
 
     def __repr__(self):
+        if PLACEHOLDERS is not None:
+            return _placeholder(self)
         return f"Sym({self.e})"
 
     def __str__(self):
+        if PLACEHOLDERS is not None:
+            return _placeholder(self)
         if ALLOW_STR:
             return "<sym>"
         raise Inconclusive("str() of a symbolic real")
 
     def __format__(self, spec):
+        if PLACEHOLDERS is not None:
+            return _placeholder(self)
         if ALLOW_STR:
             return "<sym>"
         raise Inconclusive("format() of a symbolic real")
